@@ -399,6 +399,102 @@ func run1(t *testing.T, c Case) (res Result) {
 			}
 			w.checkAll("lost-" + strings.ReplaceAll(drop, " ", ""))
 			res.Class = "lost-ok"
+		case "dup-acquire":
+			// Two acquire requests with the same lock ID are in flight at once (an interrupted FUSE call is retried
+			// while the first request is still waiting), with a local writer on the primary holding its write locks
+			// for Variant%3 = 0: before both arrive, 1: between them, 2: not at all. Both must get the same lock.
+			hold := make(chan struct{})
+			parked := make(chan struct{})
+			writerDone := make(chan struct{})
+			go func() {
+				defer close(writerDone)
+				if c.Variant%3 == 2 {
+					close(parked)
+					return
+				}
+				w.own++
+				wc := pager.NewConn(P.M, "db", 100+w.own, ps)
+				defer wc.Close()
+				once := false
+				wc.Before = func(step int, desc string) {
+					// park once the write transaction holds its locks and is about to publish
+					if !once && (desc == "unlink journal" || strings.HasPrefix(desc, "wal write frame")) {
+						once = true
+						close(parked)
+						<-hold
+					}
+				}
+				if w.wal {
+					r := wc.RunWTx(pager.WTx{Frames: []uint32{1, 2}, Outcome: "commit"}, w.img)
+					if r.Committed {
+						w.img = r.Intended
+					}
+				} else {
+					r := wc.RunRTx(pager.RTx{Mods: []uint32{2}, Final: "DELETE", Outcome: "commit"}, w.img)
+					if r.Committed {
+						w.img = r.Intended
+					}
+				}
+			}()
+			<-parked
+			cli := lfshttp.NewClient()
+			cli.HTTPClient = &http.Client{Transport: w.cl.Net.Transport("R1")}
+			type ans struct {
+				l   *litefs.HaltLock
+				err error
+			}
+			results := make(chan ans, 2)
+			ask := func() {
+				l, err := cli.AcquireHaltLock(context.Background(), "http://P", R.Store.ID(), "db", 4242)
+				results <- ans{l, err}
+			}
+			go ask()
+			lab.Settle(300 * time.Millisecond)
+			if c.Variant%3 == 1 {
+				close(hold)
+				lab.Settle(1 * time.Millisecond)
+			}
+			go ask()
+			lab.Settle(300 * time.Millisecond)
+			if c.Variant%3 != 1 {
+				close(hold)
+			}
+			<-writerDone
+			var got []ans
+			lab.WaitFor(10*time.Second, func() bool {
+				for len(results) > 0 {
+					got = append(got, <-results)
+				}
+				return len(got) == 2
+			})
+			if len(got) != 2 {
+				viol("C13/dup-acquire-no-answer", "only %d of two acquire requests with the same lock ID were answered within 10 fake seconds (acquire timeout 3 s)", len(got))
+				return
+			}
+			for i, a := range got {
+				if a.err != nil {
+					viol("C13/dup-acquire-refused", "acquire request %d for lock ID 4242 failed although the lock was granted for that ID: %v (other answer: %+v)", i, a.err, got[1-i])
+					return
+				}
+			}
+			if got[0].l.ID != got[1].l.ID || got[0].l.Pos != got[1].l.Pos {
+				viol("C13/dup-acquire-different-locks", "two acquire requests with the same ID returned different locks: %+v vs %+v", got[0].l, got[1].l)
+			}
+			if id := P.DB("db").VerifHaltLockID(); id != 4242 {
+				viol("C13/dup-acquire-not-held", "after both answers the primary's halt lock is %d", id)
+			}
+			if ok, _, _ := w.txOn(P, 3, []uint32{3}); ok {
+				viol("C13/local-commit-while-halted", "a local transaction committed on the primary while the halt lock is held")
+			}
+			if err := cli.ReleaseHaltLock(context.Background(), "http://P", R.Store.ID(), "db", 4242); err != nil {
+				viol("C13/release-failed", "release: %v", err)
+			}
+			lab.Settle(500 * time.Millisecond)
+			if ok, err, step := w.txOn(P, 30, []uint32{3}); !ok {
+				viol("C13/writer-after-release", "after release the primary cannot write: %v at %s", err, step)
+			}
+			w.checkAll("dup-acquire")
+			res.Class = fmt.Sprintf("dup-ok-variant-%d", c.Variant%3)
 		case "tx-matrix":
 			// (7) POST /tx is accepted only from the current holder of the halt lock.
 			lockState := []string{"none-held", "held", "released"}[c.Variant%3]
@@ -648,7 +744,8 @@ func TestCheck(t *testing.T) {
 	var cases []Case
 	for _, wal := range []bool{false, true} {
 		cases = append(cases, Case{Scenario: "basic", WAL: wal, Variant: 0}, Case{Scenario: "basic", WAL: wal, Variant: 1},
-			Case{Scenario: "expiry", WAL: wal}, Case{Scenario: "expiry-then-commit", WAL: wal})
+			Case{Scenario: "expiry", WAL: wal}, Case{Scenario: "expiry-then-commit", WAL: wal},
+			Case{Scenario: "dup-acquire", WAL: wal, Variant: 0}, Case{Scenario: "dup-acquire", WAL: wal, Variant: 1}, Case{Scenario: "dup-acquire", WAL: wal, Variant: 2})
 		for v := 0; v < 3; v++ {
 			cases = append(cases, Case{Scenario: "lost-replies", WAL: wal, Variant: v})
 		}
@@ -716,7 +813,7 @@ func TestCheck(t *testing.T) {
 		"outcome_classes":     cl,
 		"exhaustive":          true,
 		"samples":             []any{cases[0], cases[len(cases)-1], bInfo},
-		"rule":                "Part A: every scenario of the list {basic x repeat-acquire, expiry, expiry-then-commit, lost reply of /halt | /tx | DELETE /halt, POST /tx caller matrix lock state x lock ID x node ID} x journal mode, each on a fresh 3-node cluster. Part B: every schedule up to the preemption bound of the application on the replica, a local writer on the primary and (optionally) the lock's expiry. distinct_nontrivial = distinct (scenario or harness, outcome) classes.",
+		"rule":                "Part A: every scenario of the list {basic x repeat-acquire, two concurrent acquires with one ID x position of a local writer, expiry, expiry-then-commit, lost reply of /halt | /tx | DELETE /halt, POST /tx caller matrix lock state x lock ID x node ID} x journal mode, each on a fresh 3-node cluster. Part B: every schedule up to the preemption bound of the application on the replica, a local writer on the primary and (optionally) the lock's expiry. distinct_nontrivial = distinct (scenario or harness, outcome) classes.",
 	}
 	run.Finish(cov, []string{
 		"The halt lock is taken through the real LockHandle of package litefs/fuse; SQLite and the kernel are simulated as in C01.",
